@@ -44,6 +44,7 @@ ASSUMPTIONS = [
 
 SPS = [{"a": 0}, {"a": 1}, {"a": 2}]
 DOC_FILE = "signac_job_document.json"
+SP_FILE = "signac_statepoint.json"
 
 
 def actor_ops(writer_jobs):
@@ -206,10 +207,16 @@ def judge(case, root, init_docs, actors, order, where, mms):
                     mms.append(Mismatch("final_doc", f"{where}: job {j} document {job.document()!r}, sequential result {states[j][-1]!r}"))
             except Exception as e:
                 mms.append(Mismatch("final_read", f"{where}: reading job {j} raised {type(e).__name__}: {e}"))
+    # exactly the files a sequential execution leaves: the project's configuration, and per requested job its
+    # state point file and (possibly) its document file -- nothing else, under any name
     for dirpath, dirnames, filenames in os.walk(root):
         for fn in filenames:
+            rel = os.path.relpath(os.path.join(dirpath, fn), root)
+            parts = rel.split(os.sep)
             if fn.endswith("~") or fn.startswith("._"):
-                mms.append(Mismatch("leftover", f"{where}: leftover {os.path.relpath(os.path.join(dirpath, fn), root)}"))
+                mms.append(Mismatch("leftover", f"{where}: leftover {rel}"))
+            elif parts[0] == "workspace" and not (len(parts) == 3 and parts[1] in want and fn in (SP_FILE, DOC_FILE)):
+                mms.append(Mismatch("leftover", f"{where}: file {rel} is left behind, which no sequential execution creates"))
 
 
 def classify(case, order, cl, counts):
